@@ -87,8 +87,8 @@ type World struct {
 	total        int           // capacity of the underlying limiter (Cap + 1 janitor token for blocking / deadline)
 	janitor      core.Listener // token held for the whole scenario; its completion broadcasts and flushes helper goroutines
 
-	Entered  atomic.Int64 // callers that have called Acquire
-	Returned atomic.Int64 // callers whose Acquire has returned
+	Entered  atomic.Int64     // callers that have called Acquire
+	Returned atomic.Int64     // callers whose Acquire has returned
 	OnReturn func(wt *Waiter) // called in the caller's goroutine right after Acquire returned (after Returned was bumped)
 
 	mu      sync.Mutex
